@@ -104,7 +104,8 @@ InvertsModel == (FR /\ didx = 0) => est = Dense(tomo) /\ dat = ModelAll(tomo, De
 RecoversPhysicalSmall == (FR /\ didx = 0 /\ mdl.pinv # <<>>) =>
     \A n \in PhysNames : MatVec(mdl.pinv, VSub(CircuitAll(tomo, PhysVar(n)), mdl.b)) = PhysVar(n)
 \* informational completeness of the tester sets used: complete sets give full rank, deficient ones do not
-RankAsExpected == didx >= 0 =>
+\* (schedule subsets may drop rows an otherwise complete tester set needs: no expectation for them)
+RankAsExpected == (didx >= 0 /\ tomo.tag[3] # "subset") =>
     LET defState == tomo.tag[1] = "S3" /\ tomo.type # "qst"
         defPovm == tomo.tag[2] = "P2" /\ tomo.type # "povmt"
     IN FullRank(tomo, mdl) <=> ~(defState \/ defPovm)
